@@ -195,7 +195,66 @@ def objects_in(v, out=None):
     return out
 
 
+def run_kinds_case(ctx, case):
+    """the argument-kinds family (positionals, nargs, yes/no flags, Callable / Type hints ...; DESIGN 3.3b): the same isolation
+    clauses for the objects handed to the parse / dump / validate methods and for the parser's declared defaults"""
+    import json
+    import warnings
+
+    from ..gen import kinds as K
+
+    warnings.simplefilter("ignore")
+    recipe, values = case["recipe"], case["values"]
+    p = K.build(recipe)
+    w = Watch(ctx, p, case)
+    obj = K.object_for(recipe, values)
+    ctx.cls("kinds-case")
+    if len(values) >= 2:
+        ctx.mark_nontrivial()
+    outcome, cfg = w.call("parse_object(dict)", p.parse_object, obj)
+
+    def as_text(v):
+        if isinstance(v, dict):
+            return {k: as_text(x) for k, x in v.items()}
+        if isinstance(v, list):
+            return [as_text(x) for x in v]
+        return v if isinstance(v, str) or v is None else json.dumps(v)
+
+    # the same settings with every number / boolean spelled as text (what an environment or a loosely typed source hands over): they are
+    # converted, in a copy
+    w.call("parse_object(dict of texts)", p.parse_object, as_text(obj))
+    w.call("parse_string", p.parse_string, json.dumps(obj, ensure_ascii=False))
+    if K.expressible_on_argv(recipe, values):
+        w.call("parse_args", p.parse_args, K.argv_for(recipe, values, case.get("layout", 0)))
+    for dflt in (True, False):
+        w.call(f"parse_object(dict, defaults={dflt})", lambda o, dflt=dflt: p.parse_object(o, defaults=dflt), obj)
+    w.call("get_defaults", p.get_defaults)
+    if outcome == "ok" and cfg is not None:
+        w.call("validate", p.validate, cfg)
+        w.call("dump", lambda c: p.dump(c, skip_none=False), cfg)
+        w.call("parse_object(Namespace)", p.parse_object, cfg)
+        w.call("instantiate_classes", p.instantiate_classes, cfg)
+        # the result of a parse without merged defaults is the caller's: changing it must not reach the parser
+        try:
+            r = K.build(recipe)
+            before = value_fp(r.get_defaults())
+            res = r.parse_object(copy.deepcopy(obj), defaults=False)
+            for _path, x in list(_iter_containers(res)):
+                try:
+                    x.append("MUTATED") if isinstance(x, list) else x.update({"MUTATED": 1}) if isinstance(x, dict) else None
+                except Exception:  # noqa
+                    pass
+            after = value_fp(r.get_defaults())
+            if after != before:
+                ctx.finding("C08/kinds/result-of-a-parse-shares-containers-with-the-declared-defaults", {"difference": where(before, after)})
+        except Exception:  # noqa
+            pass
+    ctx.sample()
+
+
 def run_case(ctx, case):
+    if case.get("kind") == "kinds":
+        return run_kinds_case(ctx, case)
     with _rt.scratch_dir() as dcf:
         _run_case(ctx, case, dcf)
 
@@ -409,7 +468,12 @@ def plan(tier):
 
 
 def run_shard(spec, ctx):
-    run_given(ctx, _rt.case_strategy(spec["depth"], special_share=1000), body(ctx), spec["n"])
+    from hypothesis import strategies as st
+
+    from . import _kinds
+
+    main = _rt.case_strategy(spec["depth"], special_share=1000)
+    run_given(ctx, st.integers(0, 5).flatmap(lambda i: _kinds.case_strategy() if i == 0 else main), body(ctx), spec["n"])
 
 
 def health(tier, evaluations, nontrivial, classes):
